@@ -447,6 +447,13 @@ struct V : RecursiveASTVisitor<V> {
           addLoc(X, t, T->getBeginLoc());
           if (const Expr *Cnd = dyn_cast_or_null<Expr>(B->getTerminatorCondition())) t["cond"] = ex(X, Cnd);
           if (auto *BOp = dyn_cast<BinaryOperator>(T)) t["lop"] = BOp->getOpcodeStr().str();
+          if (auto *IS = dyn_cast<IfStmt>(T)) {
+            t["fullcond"] = ex(X, IS->getCond());
+            t["haselse"] = IS->getElse() != nullptr;
+          }
+          if (auto *WS = dyn_cast<WhileStmt>(T)) t["fullcond"] = ex(X, WS->getCond());
+          if (auto *FS = dyn_cast<ForStmt>(T)) if (FS->getCond()) t["fullcond"] = ex(X, FS->getCond());
+          if (auto *DS = dyn_cast<DoStmt>(T)) t["fullcond"] = ex(X, DS->getCond());
           b["term"] = std::move(t);
         }
         if (const Stmt *L = B->getLabel()) {
